@@ -283,6 +283,13 @@ class Engine(ExprMixin, StmtMixin, CallMixin, BuiltinMixin, EngineBase):
         """ir_clean(): no possibly-IR-mutating call on an unmodelled receiver happened on this path (lenient mode)."""
         return [(p, VBool(z3.BoolVal(p.ghost.get("$ir_dirty") is None)))]
 
+    def sp_box_get(self, node, p):
+        """box_get(m, k): value of an (unordered ghost) map at k."""
+        return self.bind(self.ev_list(node.args, p), lambda q, vs: [(q, vs[0].get(coerce(vs[1], vs[0].ty.k)))])
+
+    def sp_box_has(self, node, p):
+        return self.bind(self.ev_list(node.args, p), lambda q, vs: [(q, vs[0].get(coerce(vs[1], vs[0].ty.k)) if isinstance(vs[0].ty.v, type(BOOL)) else VBool(vs[0].has(coerce(vs[1], vs[0].ty.k))))])
+
     def sp_some(self, node, p):
         """some(x): the payload of an optional (meaningful only where `x is not None` is also stated)."""
         return self.bind(self.ev(node.args[0], p), lambda q, v: [(q, v.val if isinstance(v, VOpt) else v)])
@@ -447,8 +454,10 @@ class Engine(ExprMixin, StmtMixin, CallMixin, BuiltinMixin, EngineBase):
                 if specs is None:
                     self.oblige(q, z3.BoolVal(False), f"no-{r.cls}", where)
                 else:
+                    envx = dict(env)
+                    envx.update(q.ghost.get("$exit_ghost", {}))
                     for i, s in enumerate(specs):
-                        self.oblige(q, self.spec_bool(s, q, env), "exc-post", f"{r.cls}@{where}#{i}")
+                        self.oblige(q, self.spec_bool(s, q, envx), "exc-post", f"{r.cls}@{where}#{i}")
                     if not specs:
                         self.oblige(q, z3.BoolVal(True), "exc-post", f"{r.cls}@{where}")
             else:
